@@ -34,10 +34,11 @@ _p("C03", ["shexing", "grouping", "c06_nt", "instances", "profiling"], ["schemas
    "Deductive: relaxation rule ('?' iff allow_opt and cardinality 1, else '*'; only below 100 %), exact-cardinality generalisation, '+' always offered and "
    "preferred under keep_less_specific unless useless, with the mode off no cardinality is written. Conformance of every instance (ShEx semantics, "
    "recursive references) is decided by an independent validator on schema-consistent graphs: bounded (schemas.py).")
-_p("C04", ["shexing", "c20_config", "c08_channels", "grouping"], ["schemas"],
+_p("C04", ["shexing", "c20_config", "c08_channels", "grouping", "c06_nt", "c07_ttl"], ["schemas"],
    "Deductive: exception-freedom (None dereference, missing keys, index range, call shapes, list.remove membership) of the node-kind merge under its "
    "representation invariant, which the constructor is proved to establish; call shapes of shex_graph / profile_graph; termination of empty-shape removal (every round removes at least one shape: decreases clause on "
-   "ClassShexer._clean_empty_shapes) and of the N-Triples tokenizer. Totality of the composed pipeline on "
+   "ClassShexer._clean_empty_shapes) of the N-Triples tokenizer (_look_for_tokens) and of the token loop of a Turtle line (_process_line_with_potential_triples: every token "
+   "ends strictly after it starts). Totality of the composed pipeline on "
    "adversarial mixes x configurations x formats: bounded (schemas.py).")
 _p("C05", ["c05_tokens", "c18_state", "instances", "grouping"], ["schemas"],
    "Deductive: the label built for a class (build_shapes_name_for_class_uri: '<' + shapes namespace + local name + '>', never raises; for slash namespaces the "
@@ -58,7 +59,8 @@ _p("C07", ["c07_ttl", "c06_nt"], ["readers"],
    "is escaped), and the subject/predicate/object automaton (_assing_tmp_element_and_promote_state keeps the other two slots, rejects a term in any other state) "
    "that carries ';' ',' and multi-line statements; _find_next_unescaped_quotes (the quote returned is preceded by an even, maximal run of backslashes; uses the "
    "contract of _count_prior_backslashes) and _parse_cornered_element (<...> unchanged without @base and for absolute http(s) IRIs, base + reference for a plain "
-   "relative reference). Prefix expansion of a prefixed name is assumed here. Whole documents (3 layouts per statement set, prefix and "
+   "relative reference); progress and termination of the line scanner (_find_next_quoted_literal_ending, _next_line_token, and the token loop "
+   "_process_line_with_potential_triples with a decreases clause, for lines whose '<' are all closed on the line). Prefix expansion of a prefixed name is assumed here. Whole documents (3 layouts per statement set, prefix and "
    "base re-declaration, numeric/boolean shorthands) against rdflib: bounded (readers.py).")
 _p("C08", ["c08_channels", "c06_nt", "c17_min_iri"], ["channels"],
    "Deductive: the delivery dispatch (_decide_line_reader returns the reader class that matches exactly the one source given and hands it that source unchanged; "
